@@ -183,6 +183,8 @@ pub struct ExecCtx {
     pub run_ns: AtomicU64,
     /// set after a run hit the wall-clock cap: exploration stops early
     pub abort: std::sync::atomic::AtomicBool,
+    /// a timed-out scenario is being repeated: runs get 4x the cap
+    pub retry_mode: std::sync::atomic::AtomicBool,
 }
 
 static WATCH: Mutex<Vec<(u32, Instant)>> = Mutex::new(Vec::new());
@@ -327,7 +329,8 @@ pub fn exec_scenario(ctx: &ExecCtx, wd: &Workdir, scn: &Scenario, built: &Built)
             .spawn()
             .map_err(|e| format!("spawn {}: {}", ctx.sut.display(), e))?;
         let pid = child.id();
-        WATCH.lock().unwrap().push((pid, Instant::now() + ctx.timeout));
+        let cap = if ctx.retry_mode.load(Ordering::Relaxed) { ctx.timeout * 4 } else { ctx.timeout };
+        WATCH.lock().unwrap().push((pid, Instant::now() + cap));
         let status = child.wait().map_err(|e| e.to_string())?;
         WATCH.lock().unwrap().retain(|(p, _)| *p != pid);
         let wall = t0.elapsed();
